@@ -169,3 +169,15 @@ package ecs
 //@   requires poolInv(p)
 //@   ensures  capacity: result == cap(p.entities) && uint64(result) >= *epAlive(p) + uint64(p.available)
 //@   modifies nothing
+
+// Recycle for the filter-id pool. Not called on the unchanged tree (ids of unregistered filters
+// are not re-used); the contract is what a caller would have to meet: only an issued id is
+// handed back, and it is not issued afterwards.
+//@ func (*intPool[cacheID]).Recycle
+//@   serves C05
+//@   requires ipInv(p) && ipIssued(p, e)
+//@   assumes  p.available < 0xffffffff
+//@   ghost    ipFree(p)[old(p.available)] = uint32(e); ipRank(p)[uint32(e)] = old(p.available) + 1
+//@   ensures  inv: ipInv(p)
+//@   ensures  recycled: !ipIssued(p, e)
+//@   ensures  others: forall i cacheID :: i != e ==> ipIssued(p, i) == old(ipIssued(p, i))
